@@ -112,7 +112,19 @@ def gen_hist(rng, name):
     if name == "gdp":
         s, q, n = gen_run(rng, name)
         return [(s, max(q, 0.003), n + 20)]   # keep mu large enough for brentq's bracket [0, 500]
-    return [gen_run(rng, name) for _ in range(rng.randint(1, 4))]
+    r = rng.random()
+    if r < 0.2:
+        # a long phase followed by a brief change of sigma (either order): the composed epsilon is far above
+        # what the short run alone would give (domain sizing of the PRV accountant must use the whole history)
+        q = rng.choice([0.01, 0.02, 0.03])
+        h = [(rnd(rng.uniform(0.9, 1.2)), q, rng.randint(1500, 3000)), (rnd(rng.uniform(1.25, 1.6)), q, rng.randint(5, 30))]
+        return h if rng.random() < 0.5 else h[::-1]
+    h = [gen_run(rng, name) for _ in range(rng.randint(1, 4))]
+    if len(h) >= 2 and r < 0.45:
+        # a setting that recurs non-adjacently (A, B, A)
+        s0, q0, _ = h[0]
+        h.append((s0, q0, rng.randint(1, 300)))
+    return h
 
 
 RELATIONS = ["perm", "split", "merge", "one-at-a-time", "+steps", "+q", "+sigma", "+delta"]
